@@ -4,7 +4,7 @@
     [X fs k] is the k-th data sample of the (multi-file) stream, sample t channel c at index t*nchans + c. *)
 From Coq Require Import ZArith List Bool.
 Require Import SPP.Base.Rt SPP.Gen.Kernels SPP.Gen.Plan SPP.Gen.BaseSites SPP.Model.Stream SPP.Model.Plan SPP.Model.C06_pipe
-               SPP.Proofs.C02_stream SPP.Proofs.C01_plan SPP.Proofs.C06_reduce.
+               SPP.Model.Bits SPP.Model.PlanPacked SPP.Proofs.C02_stream SPP.Proofs.C01_plan SPP.Proofs.C01_packed SPP.Proofs.C06_reduce.
 Import ListNotations.
 Open Scope Z_scope.
 
@@ -75,6 +75,37 @@ Proof. intros fs nch N g1 g2 start nsamps md delays H1 H2 H3 H4 H5 H6 H7 H8 H9 H
   destruct (dedisperse_spec fs nch N g2 start nsamps md delays H1 H2 H3 H4 H5 H6 H8 H9 H10) as [o2 [E2 S2]].
   exists o1, o2. repeat split; try assumption. intros t Ht. rewrite S1, S2 by assumption. reflexivity. Qed.
 Print Assumptions C06_gulp_irrelevant_dedisperse.
+
+(** packed depths (1, 2, 4 bits): reading a packed set is reading the byte-wide set of its unpacked samples
+    (Proofs/C01_packed.v: plan o generated unpack kernels), so the reductions equal their definitions on the unpacked samples *)
+Theorem C06_packed_transfer : forall fs nch nbits big N gulp0 start nsamps skipback0 junk,
+  In nbits [1; 2; 4] -> (nch * nbits) mod 8 = 0 -> 1 <= nch ->
+  1 <= nfiles fs -> total fs = N * samp_bytes nch nbits -> Forall is_byte (flat fs) ->
+  0 <= start -> 1 <= nsamps -> start + nsamps <= N -> 1 <= gulp0 -> Z.abs skipback0 < Z.min nsamps gulp0 ->
+  run_plan_packed fs nch nbits big gulp0 start nsamps skipback0 junk =
+  run_plan (unpacked_set fs nbits big) nch gulp0 start nsamps skipback0
+  /\ 1 <= nfiles (unpacked_set fs nbits big) /\ total (unpacked_set fs nbits big) = N * nch.
+Proof. exact run_plan_packed_as_bytes. Qed.
+Print Assumptions C06_packed_transfer.
+
+Theorem C06_collapse_packed : forall fs nch nbits big N gulp start nsamps junk,
+  In nbits [1; 2; 4] -> (nch * nbits) mod 8 = 0 -> 1 <= nch ->
+  1 <= nfiles fs -> total fs = N * samp_bytes nch nbits -> Forall is_byte (flat fs) ->
+  0 <= start -> 1 <= nsamps -> start + nsamps <= N -> 1 <= gulp ->
+  exists out, collapse_pipe_packed fs nch nbits big gulp start nsamps junk = Some out /\
+    forall t, 0 <= t < nsamps -> out t = sum_n (Z.to_nat nch) (fun c => packed_sample fs nbits big ((start + t) * nch + c)).
+Proof. exact collapse_spec_packed. Qed.
+Print Assumptions C06_collapse_packed.
+
+Theorem C06_dedisperse_packed : forall fs nch nbits big N gulp start nsamps md delays junk,
+  In nbits [1; 2; 4] -> (nch * nbits) mod 8 = 0 -> 1 <= nch ->
+  1 <= nfiles fs -> total fs = N * samp_bytes nch nbits -> Forall is_byte (flat fs) ->
+  0 <= start -> 1 <= nsamps -> start + nsamps <= N -> 1 <= gulp ->
+  0 <= md < nsamps -> (forall c, 0 <= c < nch -> 0 <= delays c <= md) ->
+  exists out, dedisperse_pipe_packed fs nch nbits big gulp start nsamps md delays junk = Some out /\
+    forall t, 0 <= t < nsamps - md -> out t = sum_n (Z.to_nat nch) (fun c => packed_sample fs nbits big ((start + t + delays c) * nch + c)).
+Proof. exact dedisperse_spec_packed. Qed.
+Print Assumptions C06_dedisperse_packed.
 
 (** non-vacuity: 2 files, 6 samples x 2 channels, sub-range [1,6), gulp 2 < 2*maxdelay, delays (0,2) *)
 Example C06_example :
